@@ -139,8 +139,18 @@ func (d *Driver) runCheck(writeEvidence bool) int {
 		fmt.Println("ENGINE-ERROR no jobs for this tier")
 		return 2
 	}
+	if os.Getenv("GOSX_NO_XSOLVER") == "" {
+		n := 120
+		if d.tier == "thorough" {
+			n = 400
+		}
+		d.xs = NewXSample(n)
+	}
 	d.explore(jobs)
 	tExplore := time.Since(t0) - tLoad
+	if d.xs != nil {
+		d.xres = d.xs.run(d.workers, 20000)
+	}
 
 	// ----- aggregate per harness
 	type hAgg struct {
@@ -241,6 +251,10 @@ func (d *Driver) runCheck(writeEvidence bool) int {
 	}
 	if len(d.stats.Errors) > 0 {
 		problems = append(problems, fmt.Sprintf("solver errors: %d, first: %s", len(d.stats.Errors), d.stats.Errors[0]))
+	}
+	if d.xres != nil && len(d.xres.Disagree) > 0 {
+		inconclusive = true
+		problems = append(problems, "SOLVER-DISAGREEMENT: "+d.xres.Disagree[0])
 	}
 
 	// ----- native replay
@@ -371,6 +385,9 @@ func (d *Driver) runCheck(writeEvidence bool) int {
 	fmt.Printf("  paths=%d instrs=%d queries=%d (sat %d, unsat %d, unknown %d) solver=%.1fs load=%.1fs explore=%.1fs replay=%.1fs validated=%d/%d wall=%.1fs\n",
 		d.stats.Paths, d.stats.Instrs, d.stats.Queries, d.stats.Sat, d.stats.Unsat, d.stats.Unknown,
 		float64(d.stats.SolverNs)/1e9, tLoad.Seconds(), tExplore.Seconds(), tReplay.Seconds(), validated, len(okSamples), wall)
+	if d.xres != nil {
+		fmt.Printf("  cross-solver: %d unsat queries re-decided by %v: %v (%.1fs)\n", d.xres.Sampled, d.xres.Solvers, d.xres.Answers, d.xres.TimeS)
+	}
 
 	funcs := make([]string, 0, len(d.funcsSeen))
 	for f := range d.funcsSeen {
@@ -424,6 +441,7 @@ func (d *Driver) runCheck(writeEvidence bool) int {
 			"queries":                       map[string]int{"total": d.stats.Queries, "sat": d.stats.Sat, "unsat": d.stats.Unsat, "unknown": d.stats.Unknown},
 			"solver_time_s":                 float64(d.stats.SolverNs) / 1e9,
 			"solver":                        solverVersion(d.solverBin),
+			"cross_solver_check":            d.xres,
 			"outcomes_by_harness":           outcomesByHarness,
 			"known_findings_reproduced":     keysOf(knownHits),
 			"problems":                      problems,
